@@ -12,6 +12,7 @@ from .common import mk_dim, size_space_subtotals
 
 CM = "stripe.cubemeasure"
 INS = "stripe.insertion"
+STRAND_CAT_TYPES = ("BINNED_NUMERIC", "CAT", "CA_CAT", "CA_SUBVAR", "DATETIME", "LOGICAL", "TEXT")
 MS = "stripe.measure"
 CP = "cubepart"
 
@@ -169,7 +170,7 @@ class StripeCubeMeasuresWiring(Contract):
 
         toks = {k: Tok(k) for k in ("counts", "unweighted_counts", "weighted_valid_counts", "unweighted_valid_counts")}
         DT = B.enum("enums:DIMENSION_TYPE")
-        dim = B.stub("rows_dimension", dimension_type=DT.CAT)
+        dim = B.stub("rows_dimension", dimension_type=B.member("rows.dimension_type", "enums:DIMENSION_TYPE", STRAND_CAT_TYPES))
         cube = B.stub(
             "cube", counts=toks["counts"], unweighted_counts=toks["unweighted_counts"],
             weighted_valid_counts=toks["weighted_valid_counts"] if cfg["valid"] else None,
@@ -268,7 +269,9 @@ class StripeEnv:
         DT = B.enum("enums:DIMENSION_TYPE")
         self.DT = DT
         self.R = R = B.size("R", lo=1)
-        dt = {"CAT": DT.CAT_DATE if date else DT.CAT, "MR": DT.MR, "ARR": DT.NUM_ARRAY}[kind]
+        # kind CAT: any type that is neither categorical-date, multiple-response nor numeric array
+        other = (lambda: B.member("rows.dimension_type", "enums:DIMENSION_TYPE", STRAND_CAT_TYPES))
+        dt = (DT.CAT_DATE if date else other()) if kind == "CAT" else {"MR": DT.MR, "ARR": DT.NUM_ARRAY}[kind]
         self.rdim, self.rows = mk_dim(B, "rows", R, dimension_type=dt, subtotals=(kind == "CAT"))
         self.w = StripeCountsIface(B, "w", R, kind)
         self.u = StripeCountsIface(B, "u", R, kind)
@@ -549,7 +552,7 @@ class StripeCountsValidCounts(Contract):
     def run(self, B, cfg):
         DT = B.enum("enums:DIMENSION_TYPE")
         R = B.size("R", lo=1)
-        rdim, rows = mk_dim(B, "rows", R, dimension_type=DT.CAT)
+        rdim, rows = mk_dim(B, "rows", R, dimension_type=B.member("rows.dimension_type", "enums:DIMENSION_TYPE", STRAND_CAT_TYPES))
         w = B.tensor("w", (R,), nonneg=True)
         u = B.tensor("u", (R,), nonneg=True)
         other = B.stub("not-used")
